@@ -275,6 +275,7 @@ pub fn check(_ctx: &Ctx, input: &Input) -> CaseResult {
         }
     };
     let mut outputs: Vec<Option<Vec<u8>>> = Vec::new();
+    let mut rejected = [false; 32];
     for bits in 0u8..32 {
         let cfg = cfg_of(bits);
         let (r, count) = parse_counting_via(&bytes, cfg, hist_of(bits), Entry::ConfigParse)?;
@@ -297,7 +298,13 @@ pub fn check(_ctx: &Ctx, input: &Input) -> CaseResult {
                     outputs.push(None);
                     continue;
                 }
-                match wal::emit(&mut m) {
+                // what a switch documents holds for every emission of the
+                // module, not only the first: a quarter of the configurations
+                // are judged by their second emission
+                let judge_second = (bits as u64 + (case_hash >> 3)) % 4 == 0;
+                let first = wal::emit(&mut m);
+                let emitted = if judge_second && first.is_ok() { wal::emit(&mut m) } else { first };
+                match emitted {
                     Ok(b) => outputs.push(Some(b)),
                     Err(f) => {
                         if cfg.dwarf && has_debug {
@@ -317,6 +324,7 @@ pub fn check(_ctx: &Ctx, input: &Input) -> CaseResult {
                         format!("parse failed but the on_parse callback ran {} times (config bits {:05b}) [{}]", count, bits, origin),
                     ));
                 }
+                rejected[bits as usize] = true;
                 outputs.push(None);
             }
         }
@@ -328,6 +336,12 @@ pub fn check(_ctx: &Ctx, input: &Input) -> CaseResult {
         let cfg = cfg_of(bits);
         for entry in [Entry::ConfigParseFile, Entry::ModuleFromFileWithConfig, Entry::ModuleFromBufferWithConfig] {
             let (r, count) = parse_counting_via(&bytes, cfg, hist_of(bits), entry)?;
+            if r.is_ok() == rejected[bits as usize] && (r.is_ok() || outputs[bits as usize].is_some()) {
+                return Err(Failure::new(
+                    "entry-point-changes-verdict",
+                    format!("{:?} accepted: {}, ModuleConfig::parse with the same configuration (bits {:05b}) accepted: {} [{}]", entry, r.is_ok(), bits, !rejected[bits as usize], origin),
+                ));
+            }
             match r {
                 Ok(mut m) => {
                     if count != 1 {
